@@ -170,6 +170,9 @@ func (fs LocalFileSystem) Create(ctx context.Context, name string, body io.ReadC
 	}
 	fi, _ = fs.Stat(ctx, name)
 	created = fi == nil
+	if fi != nil && fi.IsDir {
+		return nil, false, NewHTTPError(http.StatusMethodNotAllowed, fmt.Errorf("webdav: cannot PUT to a collection"))
+	}
 
 	if err := checkConditionalMatches(fi, opts.IfMatch, opts.IfNoneMatch); err != nil {
 		return nil, false, err
@@ -177,7 +180,13 @@ func (fs LocalFileSystem) Create(ctx context.Context, name string, body io.ReadC
 
 	wc, err := os.Create(p)
 	if err != nil {
-		return nil, false, errFromOS(err)
+		// The file itself is being created, so what doesn't exist is its
+		// parent collection
+		if httpErr := errFromOS(err); internal.IsNotFound(httpErr) {
+			return nil, false, NewHTTPError(http.StatusConflict, httpErr)
+		} else {
+			return nil, false, httpErr
+		}
 	}
 	defer wc.Close()
 
